@@ -241,7 +241,7 @@ func init() {
 		ID: "C10",
 		Shards: func(th bool) []string {
 			// shard = root constructor x first operation
-			var s []string
+			s := []string{"deep"}
 			for r := 0; r < 5; r++ {
 				m := &c10Model{}
 				m.apply(c10Op{"root", r, 0, 0})
@@ -252,7 +252,7 @@ func init() {
 			return s
 		},
 		Run:  c10Run,
-		Rule: "explicit-state breadth-first search over histories of {root constructor in 5 variants (NewContext, NewContextWith {} / {a:1} / {len:1} / {len:nil}), ci.New() (<=4 contexts alive), ci.Set(k,v) with k in {a,b,len(built-in helper name)} and v in {1,2,nil}}; every transition calls the real API (successor = shortest history replayed on fresh objects + one operation); states are deduplicated on the reference model's state (parent vector + bindings, contexts numbered in creation order); every history is run twice - as is, and with every context and key read (Value and Has) just before its last operation, since reads are operations of the history too; in EVERY state the complete observation vector (Value and Has of every context x key) of the implementation is compared with the model (nearest binding wins, a binding to nil is a binding, Has = value != nil, built-in helper injected at construction only under a name that is not bound - to anything, nil included - along the chain, so that a user's binding of a helper name wins in that context and all descendants, whenever they are created). Non-trivial: histories with >=2 contexts or a nil/len binding.",
+		Rule: "explicit-state breadth-first search over histories of {root constructor in 5 variants (NewContext, NewContextWith {} / {a:1} / {len:1} / {len:nil}), ci.New() (<=4 contexts alive), ci.Set(k,v) with k in {a,b,len(built-in helper name)} and v in {1,2,nil}}; every transition calls the real API (successor = shortest history replayed on fresh objects + one operation); states are deduplicated on the reference model's state (parent vector + bindings, contexts numbered in creation order); every history is run twice - as is, and with every context and key read (Value and Has) just before its last operation, since reads are operations of the history too; in EVERY state the complete observation vector (Value and Has of every context x key) of the implementation is compared with the model (nearest binding wins, a binding to nil is a binding, Has = value != nil, built-in helper injected at construction only under a name that is not bound - to anything, nil included - along the chain, so that a user's binding of a helper name wins in that context and all descendants, whenever they are created). (deep) linear chains of 2..9 contexts, every pair of Set operations anywhere on the chain, with and without one more New at the bottom in between. Non-trivial: histories with >=2 contexts or a nil/len binding.",
 		Bound: func(th bool) string {
 			if th {
 				return "histories of <=8 operations after the root constructor, <=4 contexts"
@@ -264,6 +264,10 @@ func init() {
 
 func c10Run(t *engine.T, shard string) {
 	t.ManualCounts = true
+	if shard == "deep" {
+		c10Deep(t)
+		return
+	}
 	var r, j int
 	fmt.Sscanf(shard, "%d:%d", &r, &j)
 	depth := 6
@@ -321,6 +325,45 @@ func c10Run(t *engine.T, shard string) {
 			sort.SliceStable(ops, func(a, b int) bool { return false })
 			for _, o := range ops {
 				visit(append(nd.hist[:len(nd.hist):len(nd.hist)], o))
+			}
+		}
+	}
+}
+
+// c10Deep: linear chains of up to 9 contexts (scopes nest deeply in real templates); after the chain is built, every
+// sequence of two Set operations anywhere on it - before and after one more New at the bottom - against the model.
+func c10Deep(t *engine.T) {
+	for depth := 2; depth <= 9; depth++ {
+		chain := []c10Op{{"root", 0, 0, 0}}
+		for i := 0; i < depth-1; i++ {
+			chain = append(chain, c10Op{"new", i, 0, 0})
+		}
+		var sets []c10Op
+		for i := 0; i < depth; i++ {
+			for _, k := range []int{0, 2} {
+				for _, v := range []int{c10One, c10Two, c10Nil} {
+					sets = append(sets, c10Op{"set", i, k, v})
+				}
+			}
+		}
+		for _, s1 := range sets {
+			for _, s2 := range sets {
+				if s1.i > s2.i && depth > 5 {
+					continue // deep chains: ordered pairs with the first Set at or above the second
+				}
+				for _, late := range []bool{false, true} {
+					h := append(append([]c10Op{}, chain...), s1)
+					if late {
+						h = append(h, c10Op{"new", depth - 1, 0, 0}) // a scope opened below after the first Set
+					}
+					h = append(h, s2)
+					hh := h
+					t.Edge(1)
+					t.Case("deep "+c10HistString(hh), true, func() (string, *engine.Fail) {
+						c, _, f := c10Check(hh)
+						return c, f
+					})
+				}
 			}
 		}
 	}
